@@ -67,7 +67,9 @@ class Contract:
         self.static_only = kw.pop("static_only", False)
         self.aliases = kw.pop("aliases", {})
         self.ghost_after = kw.pop("ghost_after", {})
-        self.reveal = set(kw.pop("reveal", []))   # "<callee attr>@<static ordinal>" -> [ghost statements (python source)]       # clause name -> parameter name (overrides that renamed parameters)
+        self.reveal = set(kw.pop("reveal", []))
+        self.budget_mult = kw.pop("budget_mult", 1)     # solver budget multiplier (bit-precise float queries are slow)
+        self.elem_tier = kw.pop("elem_tier", None)     # "fp64" | "real": coordinate view of NumPy ufunc code   # "<callee attr>@<static ordinal>" -> [ghost statements (python source)]       # clause name -> parameter name (overrides that renamed parameters)
         self.heapfn = kw.pop("heapfn", False)     # pure method used as a function of (heap, receiver, args): Dafny-style
         self.value = kw.pop("value", None)        # closed form of the result (pure): callers use the expression itself
         if self.value is not None:
